@@ -73,6 +73,10 @@ pub enum Role {
     DataOut { n: usize, col0: Word, delete_first: bool },
     /// leaf: ends with the single word 1 regardless of input
     True,
+    /// leaf: ends with a final stack that is *near* the accepting shapes — [x, 1], [x, 2] with
+    /// memory, [], [0], [3], [1, 1], [2, 2], [-1], [1, x], [2, 0] — all of which are "unsatisfied"
+    /// by the statement of C01 (exactly the single word 1 / the single word 2)
+    LeafShape(u8),
     /// random operations
     Soup(Vec<Op>),
 }
@@ -358,6 +362,7 @@ pub fn gen_abstract(rng: &mut Rng, cfg: &GenCfg) -> Abstract {
                         Role::Soup(soup(rng, n))
                     }
                     9 => Role::True,
+                    10 if cfg.unsat && rng.chance(1, 2) => Role::LeafShape(rng.below(10) as u8),
                     _ => {
                         n_slots += 1;
                         Role::Check { slot: n_slots }
@@ -671,6 +676,24 @@ pub fn node_program(abs: &Abstract, pi: usize, a: usize) -> Vec<Op> {
         Role::True => {
             v.extend(frag_clear_stack());
             v.push(PUSH(1));
+        }
+        Role::LeafShape(k) => {
+            v.extend(frag_clear_stack());
+            match k {
+                0 => v.extend([PUSH(t), PUSH(1)]),
+                1 => {
+                    v.extend(frag_mem_append(&[0]));
+                    v.extend([PUSH(t), PUSH(2)]);
+                }
+                2 => {}
+                3 => v.push(PUSH(0)),
+                4 => v.push(PUSH(3)),
+                5 => v.extend([PUSH(1), PUSH(1)]),
+                6 => v.extend([PUSH(2), PUSH(2)]),
+                7 => v.push(PUSH(-1)),
+                8 => v.extend([PUSH(1), PUSH(t)]),
+                _ => v.extend([PUSH(2), PUSH(0)]),
+            }
         }
         Role::Soup(ops) => v.extend(ops.iter().copied()),
     }
